@@ -180,11 +180,11 @@ M('C12', 'stops-minimise', SEG, "    segmentation = optimalPartition(C, MODE_SEG
 T('C12', 'twin-dp-rename', SEG, "                val = D[i, k] + D[k, j]\n                if val < D[i, j] and mode == MODE_SEGMENTATION_MINIMIZE:", "                val = D[k, j] + D[i, k]\n                if mode == MODE_SEGMENTATION_MINIMIZE and D[i, j] > val:")
 
 # ---------------------------------------------------------------- C13
-M('C13', 'enu-precision', TW, "        if track.getSRID().upper() == \"ENU\":\n            float_fmt = \"{:10.3f}\"", "        if track.getSRID().upper() == \"ENU\":\n            float_fmt = \"{:10.2f}\"", 'C13.P')
-M('C13', 'slot-t-position', TW, "                O.append((fmt.id_T, 3))", "                O.append((fmt.id_T, 2))", 'C13.O')
-M('C13', 'gpx-latlon-swapped', TW, "                f.write('            <trkpt lat=\"' + y + '\" lon=\"' + x + '\">\\n')", "                f.write('            <trkpt lat=\"' + x + '\" lon=\"' + y + '\">\\n')", 'C13.G')
-M('C13', 'precompiled-offset', OT, "        (\"2h\", 11),", "        (\"2h\", 12),", 'C13.T')
-M('C13', 'subst-misaligned', OT, "            self.hour,\n            self.hour,\n            self.min,\n            self.min,", "            self.hour,\n            self.min,\n            self.hour,\n            self.min,", 'C13.T')
+M('C13', 'enu-precision', TW, "        if track.getSRID().upper() == \"ENU\":\n            float_fmt = \"{:10.3f}\"", "        if track.getSRID().upper() == \"ENU\":\n            float_fmt = \"{:10.2f}\"", 'C13.R')
+M('C13', 'slot-t-position', TW, "                O.append((fmt.id_T, 3))", "                O.append((fmt.id_T, 2))", 'C13.R')
+M('C13', 'gpx-latlon-swapped', TW, "                f.write('            <trkpt lat=\"' + y + '\" lon=\"' + x + '\">\\n')", "                f.write('            <trkpt lat=\"' + x + '\" lon=\"' + y + '\">\\n')", 'C13.X')
+M('C13', 'precompiled-offset', OT, "        (\"2h\", 11),", "        (\"2h\", 12),", None)
+M('C13', 'subst-misaligned', OT, "            self.hour,\n            self.hour,\n            self.min,\n            self.min,", "            self.hour,\n            self.min,\n            self.hour,\n            self.min,", None)
 
 # ---------------------------------------------------------------- C14
 M('C14', 'enu-sign', OC, "        enu.E = -x * slon + y * clon", "        enu.E = x * slon + y * clon", 'C14.R')
